@@ -902,7 +902,7 @@ rt_prop("C07", ["task", "cancel", "comb"],
         "a channel the shell can still answer). COMPLETENESS PROVED for tasks that wait only on shell requests — "
         "simple_command_done_when_all_requests_gone: for every SIMPLE task program (emit, notify, request, stream, spawn, join, "
         "self-wake in any nesting; no select, no handed-off request future, no join / abort handles, no hosted commands) under "
-        "the direct host, after EVERY history that leaves the command settled and every channel closed, no task remains "
+        "the direct host, after EVERY history that leaves every channel closed, no task remains (no other hypothesis: NAb — nothing is ever aborted — and runDirect_ready — every observation leaves the ready queue empty — discharge the side conditions) "
         "(invariants GInv + LQ + SPc + ND, Lemmas/Simple, NoReg, Complete: the poll that leaves a simple task suspended only at "
         "closed requests registers its waker nowhere — NRGood, one grind call — so run_task evicts it unless that poll woke it: "
         "dead_simple_task_is_evicted_or_queued). For the rest of the handoff-free fragment (select, join handles) completeness is stated "
